@@ -51,6 +51,7 @@ def run(rep, idx, tier):
     rep.require("C19.8", 1)
     rep.require("C19.9", 1)
     rep.require("C19.12", 25)
+    rep.require("C19.15", 2)
     rules(rep, idx, fixture=False)
     # positive fixture: the same rules must flag the committed bad example on every run
     fx = Index(os.path.join(os.path.dirname(os.path.dirname(os.path.abspath(__file__))), "fixtures", "c19"))
@@ -102,6 +103,7 @@ def rules(rep, idx, fixture):
         from .c20 import plain_member_directions
         plain_member_directions(rep, idx, "C19.13")
         clamped_pattern_width(rep, idx)
+        computed_submodule_names(rep, idx)
     if not fixture:
         from . import glue as _glue
         _glue.param_refusals(rep, "C19.12", idx)
@@ -1423,6 +1425,446 @@ def joins(rep, idx):
                         rep.unk("C19.6", f.site, what, "cannot tell whether every element of the display is a string")
                 else:
                     rep.unk("C19.6", f.site, what, "unrecognised join argument")
+
+
+# ---- C19.15 ----------------------------------------------------------------------------------------------
+def _is_path_join(e):
+    """SEP.join(str(p) for p in PATH): the encoding of a path as one string."""
+    return isinstance(e, ast.Call) and isinstance(e.func, ast.Attribute) and e.func.attr == "join" and \
+        (isinstance(e.func.value, ast.Constant) and isinstance(e.func.value.value, str) or isinstance(e.func.value, ast.Name)) and \
+        len(e.args) == 1 and isinstance(e.args[0], (ast.GeneratorExp, ast.ListComp)) and \
+        isinstance(e.args[0].elt, ast.Call) and isinstance(e.args[0].elt.func, ast.Name) and e.args[0].elt.func.id == "str"
+
+
+def _closure(idx, f):
+    """f and the package functions it calls (methods of its class through self., module-level / imported functions), two levels."""
+    out, todo, seen = [], [(f, 0)], set()
+    while todo:
+        g, depth = todo.pop()
+        if g.site in seen:
+            continue
+        seen.add(g.site)
+        out.append(g)
+        if depth >= 2:
+            continue
+        for n in ast.walk(g.node):
+            if not isinstance(n, ast.Call):
+                continue
+            h = None
+            if isinstance(n.func, ast.Attribute) and isinstance(n.func.value, ast.Name) and n.func.value.id in ("self", "cls") and g.cls is not None:
+                h = idx.lookup_method(g.cls, n.func.attr)
+            elif isinstance(n.func, ast.Name):
+                h = idx.resolve_function(g.module, n.func.id)
+                if h is None and g.cls is not None:
+                    h = idx.lookup_method(g.cls, n.func.id)
+            if h is not None:
+                todo.append((h, depth + 1))
+    return out
+
+
+def _joins_path(idx, f, e, depth=0):
+    """e encodes a path as one string: SEP.join(str(p) for p in PATH) / SEP.join(map(str, PATH)), directly or through a package helper
+    whose single return does."""
+    if _is_path_join(e):
+        return True
+    if isinstance(e, ast.Call) and isinstance(e.func, ast.Attribute) and e.func.attr == "join" and isinstance(e.func.value, ast.Constant) and \
+            len(e.args) == 1 and isinstance(e.args[0], ast.Call) and isinstance(e.args[0].func, ast.Name) and e.args[0].func.id == "map" and \
+            len(e.args[0].args) == 2 and isinstance(e.args[0].args[0], ast.Name) and e.args[0].args[0].id == "str":
+        return True
+    if isinstance(e, ast.IfExp):
+        return _joins_path(idx, f, e.body, depth) or _joins_path(idx, f, e.orelse, depth)
+    if isinstance(e, ast.Call) and depth < 2:
+        h = None
+        if isinstance(e.func, ast.Name):
+            h = idx.resolve_function(f.module, e.func.id)
+        elif isinstance(e.func, ast.Attribute) and isinstance(e.func.value, ast.Name) and e.func.value.id in ("self", "cls") and f.cls is not None:
+            h = idx.lookup_method(f.cls, e.func.attr)
+        if h is not None:
+            rets = [n for n in ast.walk(h.node) if isinstance(n, ast.Return) and n.value is not None]
+            return len(rets) == 1 and _joins_path(idx, h, rets[0].value, depth + 1)
+    return False
+
+
+def _guards_registration(g, node):
+    """The comparison `node` of function g decides a registration: it is (part of) the test of an `if` / conditional expression --
+    directly or through a local flag bound to it -- whose arms register a submodule, yield a name or rebind a name."""
+    def decides(test_holder):
+        for x in ast.walk(test_holder):
+            if isinstance(x, ast.Assign):
+                for t in x.targets:
+                    if isinstance(t, ast.Subscript) and isinstance(t.value, ast.Attribute) and t.value.attr == "submodules":
+                        return True
+                    if isinstance(t, ast.Name):
+                        return True
+            if isinstance(x, ast.AugAssign) and isinstance(x.target, ast.Attribute) and x.target.attr == "submodules":
+                return True
+            if isinstance(x, (ast.Yield, ast.Return)):
+                return True
+        return False
+    flags = set()
+    for st in ast.walk(g.node):
+        if isinstance(st, ast.Assign) and len(st.targets) == 1 and isinstance(st.targets[0], ast.Name) and any(x is node for x in ast.walk(st.value)):
+            flags.add(st.targets[0].id)
+    for st in ast.walk(g.node):
+        if isinstance(st, (ast.If, ast.While)):
+            if (any(x is node for x in ast.walk(st.test)) or any(isinstance(x, ast.Name) and x.id in flags for x in ast.walk(st.test))) and decides(st):
+                return True
+        if isinstance(st, ast.IfExp):
+            if any(x is node for x in ast.walk(st.test)) or any(isinstance(x, ast.Name) and x.id in flags for x in ast.walk(st.test)):
+                return True
+    return False
+
+
+def _dedupe_evidence(idx, f, fixed):
+    """Structural evidence of a uniqueness mechanism in f's closure: (what it is, whether the fixed names take part).  None if absent
+    or if the test does not decide any registration."""
+    r = _dedupe_evidence0(idx, f, fixed)
+    if r is None:
+        return None
+    what, inc, g, node = r
+    if not _guards_registration(g, node):
+        return None
+    return what, inc
+
+
+def _dedupe_evidence0(idx, f, fixed):
+    for g in _closure(idx, f):
+        binds = {}
+        for st in ast.walk(g.node):
+            if isinstance(st, ast.Assign) and len(st.targets) == 1 and isinstance(st.targets[0], ast.Name):
+                binds.setdefault(st.targets[0].id, []).append(st.value)
+
+        def names_list(e):
+            """(is a list of every item's joined name, constants it contains)"""
+            parts = []
+
+            def flat(x):
+                if isinstance(x, ast.BinOp) and isinstance(x.op, ast.Add):
+                    flat(x.left)
+                    flat(x.right)
+                else:
+                    parts.append(x)
+            flat(e)
+            consts = {x.value for p_ in parts if isinstance(p_, (ast.List, ast.Tuple)) for x in p_.elts if isinstance(x, ast.Constant)}
+            comp = any(isinstance(p_, (ast.ListComp, ast.GeneratorExp)) and _joins_path(idx, g, p_.elt) for p_ in parts) or \
+                any(isinstance(p_, ast.Call) and isinstance(p_.func, ast.Name) and p_.func.id == "list" and p_.args and
+                    isinstance(p_.args[0], (ast.ListComp, ast.GeneratorExp)) and _joins_path(idx, g, p_.args[0].elt) for p_ in parts)
+            names = [p_.id for p_ in parts if isinstance(p_, ast.Name)]
+            for nm in names:
+                if len(binds.get(nm, ())) == 1:
+                    c2, k2 = names_list(binds[nm][0])
+                    comp = comp or c2
+                    consts |= k2
+            return comp, consts
+        for n in ast.walk(g.node):
+            # L.count(x) compared with 1 / 2
+            if isinstance(n, ast.Compare) and len(n.ops) == 1 and isinstance(n.left, ast.Call) and isinstance(n.left.func, ast.Attribute) and \
+                    n.left.func.attr == "count" and len(n.left.args) == 1 and isinstance(n.comparators[0], ast.Constant) and \
+                    n.comparators[0].value in (1, 2) and isinstance(n.left.func.value, ast.Name):
+                lst = n.left.func.value.id
+                src = binds.get(lst, [])
+                if len(src) == 1:
+                    comp, consts = names_list(src[0])
+                    if comp:
+                        return f"`{ast.unparse(n)}` over the list `{lst}` of every item's joined name", fixed <= consts, g, n
+                elif not src and lst in [a.arg for a in g.node.args.args + g.node.args.kwonlyargs]:
+                    # the list is handed in by the caller: look for the argument there
+                    for h in _closure(idx, f):
+                        for c_ in ast.walk(h.node):
+                            if isinstance(c_, ast.Call) and (isinstance(c_.func, ast.Attribute) and c_.func.attr == g.node.name or
+                                                             isinstance(c_.func, ast.Name) and c_.func.id == g.node.name):
+                                for a_ in list(c_.args) + [k.value for k in c_.keywords]:
+                                    if isinstance(a_, ast.Name):
+                                        hb = [s_.value for s_ in ast.walk(h.node) if isinstance(s_, ast.Assign) and len(s_.targets) == 1 and
+                                              isinstance(s_.targets[0], ast.Name) and s_.targets[0].id == a_.id]
+                                        if len(hb) == 1:
+                                            saved, binds2 = binds, {}
+                                            comp, consts = names_list(hb[0])
+                                            if comp:
+                                                return (f"`{ast.unparse(n)}` in {g.qual} over the list `{a_.id}` of every item's joined name "
+                                                        f"(built in {h.qual})"), fixed <= consts, g, n
+            # len(set(L + [fixed...])) == len(L) + k
+            if isinstance(n, ast.Compare) and len(n.ops) == 1 and isinstance(n.ops[0], (ast.Eq, ast.NotEq)):
+                for a_ in (n.left, n.comparators[0]):
+                    if isinstance(a_, ast.Call) and isinstance(a_.func, ast.Name) and a_.func.id == "len" and len(a_.args) == 1 and \
+                            isinstance(a_.args[0], ast.Call) and isinstance(a_.args[0].func, ast.Name) and a_.args[0].func.id == "set" and \
+                            len(a_.args[0].args) == 1:
+                        comp, consts = names_list(a_.args[0].args[0])
+                        if comp:
+                            return f"`{ast.unparse(n)[:80]}`: all joined names and {sorted(consts)} pairwise distinct", fixed <= consts, g, n
+    return None
+
+
+def computed_submodule_names(rep, idx):
+    """amaranth's Module refuses a second submodule of the same name (NameError).  A name computed from a *path* by joining its
+    parts is not an injective encoding -- ("a", "b") and ("a__b",), ("x", 0) and ("x", "0"), or a path that spells one of the
+    fixed names of the same module, give one name -- while the layouts themselves are accepted (distinct, prefix-free names).
+    Every module that registers submodules under such computed names needs a uniqueness mechanism: the joined name is used only
+    when it occurs once among all the names of the module (every item's and the fixed ones); otherwise the submodule is added
+    anonymously or under a positional name.  The rule first tries to recognise the exact guard (full claim); failing that it
+    accepts structural evidence of the mechanism in the function and the helpers it calls (a count / set-size test over the list
+    of every item's joined name, fixed names included, plus an alternative registration) and says so; with no such test at all the
+    collision is certain for some accepted layout: a violation."""
+    opened = getattr(idx, "fully_opened", ())
+    sites = []
+    for f in idx.all_functions():
+        if f.site in opened:
+            continue
+        for st in ast.walk(f.node):
+            if isinstance(st, ast.Assign) and len(st.targets) == 1 and isinstance(st.targets[0], ast.Subscript) and \
+                    isinstance(st.targets[0].value, ast.Attribute) and st.targets[0].value.attr == "submodules" and \
+                    not isinstance(st.targets[0].slice, ast.Constant):
+                sites.append((f, st))
+    n = 0
+    for f, st in sites:
+        n += 1
+        verdict = _exact_unique_name(idx, f, st)
+        what = f"m.submodules[{ast.unparse(st.targets[0].slice)[:50]}] gets a name no other submodule of the module has"
+        if verdict[0] in ("ok", "bad"):
+            (rep.ok if verdict[0] == "ok" else rep.bad)("C19.15", f.site, what, verdict[1], **({"line": st.lineno} if verdict[0] == "bad" else {}))
+            continue
+        # structural evidence in the closure
+        fixed = set()
+        keys = []
+        for g in _closure(idx, f):
+            for x in ast.walk(g.node):
+                if isinstance(x, ast.Assign):
+                    for t in x.targets:
+                        if isinstance(t, ast.Attribute) and isinstance(t.value, ast.Attribute) and t.value.attr == "submodules":
+                            fixed.add(t.attr)
+                        if isinstance(t, ast.Subscript) and isinstance(t.value, ast.Attribute) and t.value.attr == "submodules" and \
+                                isinstance(t.slice, ast.Constant):
+                            fixed.add(t.slice.value)
+                if isinstance(x, ast.Yield) and isinstance(x.value, ast.Tuple) and len(x.value.elts) == 2 and \
+                        isinstance(x.value.elts[0], ast.Constant) and isinstance(x.value.elts[0].value, str):
+                    fixed.add(x.value.elts[0].value)            # (name, submodule) pairs produced by a generator helper
+        joins = any(_joins_path(idx, g, x) for g in _closure(idx, f) for x in ast.walk(g.node) if isinstance(x, (ast.Call, ast.IfExp)))
+        ev = _dedupe_evidence(idx, f, fixed)
+        def positional(e):
+            return isinstance(e, ast.JoinedStr) and any(isinstance(v_, ast.FormattedValue) for v_ in e.values)
+        alt = False
+        for g in _closure(idx, f):
+            for x in ast.walk(g.node):
+                if isinstance(x, ast.AugAssign) and isinstance(x.target, ast.Attribute) and x.target.attr == "submodules":
+                    alt = True                              # anonymous registration
+                if isinstance(x, ast.Assign) and len(x.targets) == 1 and isinstance(x.targets[0], ast.Subscript) and \
+                        isinstance(x.targets[0].value, ast.Attribute) and x.targets[0].value.attr == "submodules" and positional(x.targets[0].slice):
+                    alt = True                              # positional name
+                if isinstance(x, ast.Yield) and isinstance(x.value, ast.Tuple) and x.value.elts and positional(x.value.elts[0]):
+                    alt = True
+        if not joins:
+            rep.unk("C19.15", f.site, what, verdict[1])
+        elif ev is None:
+            rep.bad("C19.15", f.site, what,
+                    "the name encodes a path by joining its parts, which is not injective (('a', 'b') and ('a__b',) -- or an index 0 and a part "
+                    "'0' -- give the same string" + (f", and a path may spell the fixed name(s) {sorted(fixed)} of this module" if fixed else "")
+                    + "), and neither this function nor a helper it calls tests the names for uniqueness: the layouts are accepted, and Module "
+                    "raises NameError('Submodule named ... already exists') when they are elaborated", line=st.lineno)
+        elif not ev[1]:
+            rep.bad("C19.15", f.site, what, f"the uniqueness test ({ev[0]}) does not include the fixed submodule name(s) {sorted(fixed)} of the same "
+                    "module: an item whose path spells one of them still collides", line=st.lineno)
+        elif not alt:
+            rep.unk("C19.15", f.site, what, f"a uniqueness test is present ({ev[0]}) but no alternative registration (anonymous or positional) was found")
+        else:
+            rep.ok("C19.15", f.site, what, f"uniqueness mechanism present -- {ev[0]}" + (f", fixed name(s) {sorted(fixed)} included" if fixed else "")
+                   + "; an alternative registration exists for ambiguous names (structural evidence: the guard's control flow is not re-derived)")
+    rep.count("computed_submodule_names", n)
+
+
+def _exact_unique_name(idx, f, st):
+    """("ok" | "bad" | "unk", detail) for one `m.submodules[<computed>] = x` statement of f, by exact recognition of the guard."""
+    res = []
+
+    class _R:
+        def ok(self, rule, site, what, detail, **kw):
+            res.append(("ok", detail))
+
+        def bad(self, rule, site, what, detail, **kw):
+            res.append(("bad", detail))
+
+        def unk(self, rule, site, what, detail, **kw):
+            res.append(("unk", detail))
+
+        def count(self, *a, **k):
+            pass
+    _exact_unique_names(_R(), idx, f, st)
+    if not res:
+        return ("unk", "the statement was not classified")
+    # an exact "bad" (no guard at the statement) is only final when the closure shows no uniqueness test either: left to the caller
+    if res[0][0] == "bad":
+        return ("unk", res[0][1])
+    return res[0]
+
+
+def _exact_unique_names(rep, idx, only_f, only_st):
+    """amaranth's Module refuses a second submodule of the same name (NameError).  A name computed from a *path* by joining its
+    parts is not an injective encoding -- ("a", "b") and ("a__b",), ("x", 0) and ("x", "0"), or a path that spells one of the
+    fixed names of the same module, give one name -- while the layouts themselves are accepted (distinct, prefix-free names).
+    Every `m.submodules[<computed>] = x` must therefore be guarded: only names that occur once among all the names the module
+    uses (the computed ones of every item and the fixed ones) are used as names; the other submodules are added anonymously."""
+    n = 0
+    for f in [only_f]:
+        parents = {}
+        for a in ast.walk(f.node):
+            for ch in ast.iter_child_nodes(a):
+                parents[id(ch)] = a
+        fixed = set()
+        for st in ast.walk(f.node):
+            if isinstance(st, ast.Assign):
+                for t in st.targets:
+                    if isinstance(t, ast.Attribute) and isinstance(t.value, ast.Attribute) and t.value.attr == "submodules":
+                        fixed.add(t.attr)
+                    if isinstance(t, ast.Subscript) and isinstance(t.value, ast.Attribute) and t.value.attr == "submodules" and \
+                            isinstance(t.slice, ast.Constant):
+                        fixed.add(t.slice.value)
+        binds = {}
+        for st in ast.walk(f.node):
+            if isinstance(st, ast.Assign) and len(st.targets) == 1 and isinstance(st.targets[0], ast.Name):
+                binds.setdefault(st.targets[0].id, []).append(st.value)
+        for st in ast.walk(f.node):
+            if not (isinstance(st, ast.Assign) and len(st.targets) == 1 and isinstance(st.targets[0], ast.Subscript) and
+                    isinstance(st.targets[0].value, ast.Attribute) and st.targets[0].value.attr == "submodules" and
+                    not isinstance(st.targets[0].slice, ast.Constant)):
+                continue
+            if st is not only_st:
+                continue
+            key = st.targets[0].slice
+            key_name = key.id if isinstance(key, ast.Name) else None
+            if key_name is not None and len(binds.get(key_name, ())) == 1:
+                key = binds[key_name][0]
+            what = f"m.submodules[{ast.unparse(st.targets[0].slice)[:50]}] gets a name no other submodule of the module has"
+            n += 1
+            in_loop = False
+            p_ = parents.get(id(st))
+            guards = []
+            node = st
+            while p_ is not None and not isinstance(p_, (ast.FunctionDef, ast.AsyncFunctionDef)):
+                if isinstance(p_, (ast.For, ast.While)):
+                    in_loop = True
+                if isinstance(p_, ast.If):
+                    guards.append((p_.test, node in p_.body))
+                node, p_ = p_, parents.get(id(p_))
+            if not _is_path_join(key):
+                # f"<const>{i}<const>" with i the position counter of the enclosing enumerate() loop: one name per item; it cannot equal
+                # a fixed name that does not have that shape
+                loop = None
+                p2 = parents.get(id(st))
+                while p2 is not None and not isinstance(p2, (ast.FunctionDef, ast.AsyncFunctionDef)):
+                    if isinstance(p2, ast.For) and loop is None:
+                        loop = p2
+                    p2 = parents.get(id(p2))
+                counter = None
+                if loop is not None and isinstance(loop.iter, ast.Call) and isinstance(loop.iter.func, ast.Name) and loop.iter.func.id == "enumerate" and \
+                        isinstance(loop.target, ast.Tuple) and isinstance(loop.target.elts[0], ast.Name):
+                    counter = loop.target.elts[0].id
+                if isinstance(key, ast.JoinedStr) and counter is not None:
+                    fmts = [v_ for v_ in key.values if isinstance(v_, ast.FormattedValue)]
+                    lits = "".join(v_.value for v_ in key.values if isinstance(v_, ast.Constant))
+                    if len(fmts) == 1 and isinstance(fmts[0].value, ast.Name) and fmts[0].value.id == counter and fmts[0].format_spec is None:
+                        import re as _re
+                        pre = key.values[0].value if isinstance(key.values[0], ast.Constant) else ""
+                        post = key.values[-1].value if isinstance(key.values[-1], ast.Constant) and len(key.values) > 1 else ""
+                        clash = [x for x in fixed if isinstance(x, str) and _re.fullmatch(_re.escape(pre) + r"\d+" + _re.escape(post), x)]
+                        # the other computed names of the same loop must be mutually exclusive with this one (another arm of one choice)
+                        others = [o for o in ast.walk(loop) if isinstance(o, ast.Assign) and o is not st and len(o.targets) == 1 and
+                                  isinstance(o.targets[0], ast.Subscript) and isinstance(o.targets[0].value, ast.Attribute) and
+                                  o.targets[0].value.attr == "submodules"]
+                        def arm_of(node):
+                            q = parents.get(id(node))
+                            ch = node
+                            while q is not None and q is not loop:
+                                if isinstance(q, ast.If):
+                                    return q, ch in q.body
+                                ch, q = q, parents.get(id(q))
+                            return None, None
+                        mine = arm_of(st)
+                        excl = all(arm_of(o)[0] is mine[0] and mine[0] is not None and arm_of(o)[1] != mine[1] for o in others)
+                        if not clash and excl:
+                            rep.ok("C19.15", f.site, what, f"`{ast.unparse(key)}` with the position counter of the enclosing enumerate() loop: one name per item"
+                                   + (", used instead of (never together with) the other naming scheme of the loop" if others else ""))
+                            continue
+                if isinstance(key, ast.JoinedStr) and in_loop:
+                    rep.unk("C19.15", f.site, what, "the name is an f-string computed per item; whether it is unique per item is not decided")
+                elif in_loop:
+                    rep.unk("C19.15", f.site, what, f"the name `{ast.unparse(key)[:50]}` is computed per item; its uniqueness is not decided")
+                else:
+                    rep.ok("C19.15", f.site, what, "one computed name outside any loop", nontrivial=False)
+                continue
+            # the guard: <names>.count(<key>) == 1, with <names> a local list of the same encoding of every item (+ the fixed names)
+            okg = None
+            for test, positive in guards:
+                for c_ in ast.walk(test):
+                    if isinstance(c_, ast.Compare) and len(c_.ops) == 1 and isinstance(c_.left, ast.Call) and isinstance(c_.left.func, ast.Attribute) and \
+                            c_.left.func.attr == "count" and isinstance(c_.left.func.value, ast.Name) and len(c_.left.args) == 1 and \
+                            (ast.dump(c_.left.args[0]) == ast.dump(st.targets[0].slice) or ast.dump(c_.left.args[0]) == ast.dump(key)):
+                        one = isinstance(c_.comparators[0], ast.Constant) and c_.comparators[0].value == 1
+                        if positive and one and isinstance(c_.ops[0], ast.Eq):
+                            okg = c_.left.func.value.id
+            if okg is None:
+                # the same test made once for the whole module: a flag `len(set(<names> + [<fixed>...])) == len(<names>) + k`
+                for test, positive in guards:
+                    if positive and isinstance(test, ast.Name) and len(binds.get(test.id, ())) == 1:
+                        fl = binds[test.id][0]
+                        if isinstance(fl, ast.Compare) and len(fl.ops) == 1 and isinstance(fl.ops[0], ast.Eq):
+                            a_, b_ = fl.left, fl.comparators[0]
+                            def len_set(e):
+                                if isinstance(e, ast.Call) and isinstance(e.func, ast.Name) and e.func.id == "len" and len(e.args) == 1 and \
+                                        isinstance(e.args[0], ast.Call) and isinstance(e.args[0].func, ast.Name) and e.args[0].func.id == "set" and \
+                                        len(e.args[0].args) == 1:
+                                    return e.args[0].args[0]
+                                return None
+                            inner = len_set(a_)
+                            if inner is not None and isinstance(inner, ast.BinOp) and isinstance(inner.op, ast.Add) and isinstance(inner.left, ast.Name) and \
+                                    isinstance(inner.right, (ast.List, ast.Tuple)) and all(isinstance(x, ast.Constant) for x in inner.right.elts):
+                                lst = inner.left.id
+                                k_ = len(inner.right.elts)
+                                consts_ = {x.value for x in inner.right.elts}
+                                want_b = f"len({lst}) + {k_}"
+                                src_ = binds.get(lst, [])
+                                if ast.unparse(b_) == want_b and len(consts_) == k_ and len(src_) == 1 and isinstance(src_[0], ast.ListComp) and \
+                                        _is_path_join(src_[0].elt):
+                                    if fixed <= consts_:
+                                        okg = ("flag", test.id)
+                                    else:
+                                        rep.bad("C19.15", f.site, what, f"the uniqueness test `{test.id}` does not include the fixed submodule name(s) "
+                                                f"{sorted(fixed - consts_)} of the same module: an item whose path spells one of them still collides", line=st.lineno)
+                                        okg = ("reported", None)
+                if isinstance(okg, tuple):
+                    if okg[0] == "flag":
+                        rep.ok("C19.15", f.site, what, f"used only when `{okg[1]}` holds: all joined names and the fixed name(s) {sorted(fixed)} are pairwise distinct")
+                    continue
+            if okg is None:
+                rep.bad("C19.15", f.site, what,
+                        f"the name is `{ast.unparse(key)[:70]}`: joining the parts of a path is not injective (('a', 'b') and ('a__b',) -- or an "
+                        "index 0 and a part '0' -- give the same string"
+                        + (f", and a path may spell the fixed name{'s' if len(fixed) > 1 else ''} {sorted(fixed)} of this module" if fixed else "")
+                        + "); the layouts are accepted, and Module raises NameError('Submodule named ... already exists') when they are "
+                        "elaborated", line=st.lineno)
+                continue
+            src = binds.get(okg, [])
+            comp_ok, fixed_ok = False, not fixed
+            if len(src) == 1:
+                parts = []
+
+                def flat(e):
+                    if isinstance(e, ast.BinOp) and isinstance(e.op, ast.Add):
+                        flat(e.left)
+                        flat(e.right)
+                    else:
+                        parts.append(e)
+                flat(src[0])
+                comp_ok = any(isinstance(e, ast.ListComp) and _is_path_join(e.elt) for e in parts)
+                consts = {x.value for e in parts if isinstance(e, (ast.List, ast.Tuple)) for x in e.elts if isinstance(x, ast.Constant)}
+                fixed_ok = fixed <= consts
+            if comp_ok and fixed_ok:
+                rep.ok("C19.15", f.site, what, f"used only when it occurs once in `{okg}` (every item's name"
+                       + (f" and the fixed name{'s' if len(fixed) > 1 else ''} {sorted(fixed)}" if fixed else "") + "); otherwise the submodule is anonymous")
+            elif comp_ok:
+                rep.bad("C19.15", f.site, what, f"the uniqueness test over `{okg}` does not include the fixed submodule name(s) {sorted(fixed)} of the same "
+                        "module: an item whose path spells one of them still collides", line=st.lineno)
+            else:
+                rep.unk("C19.15", f.site, what, f"the uniqueness test counts in `{okg}`, which is not recognised as the list of every item's name")
+    rep.count("computed_submodule_names", n)
 
 
 # ---- C19.14 ----------------------------------------------------------------------------------------------
